@@ -106,5 +106,29 @@ func cmdSelftest(args []string) int {
 		return 1
 	}
 	fmt.Printf("selftest ok: %d corpus functions agree between go/ssa executor and native build\n", len(native))
+	// schedule exploration: an expected violation (lost update with one preemption) and an expected pass
+	sfns := []*ssa.Function{p.Func("Verif_Self_lost_update"), p.Func("Verif_Self_cas_ok")}
+	scfg := gosym.Config{MaxIter: 200, PanicIsViolation: true}
+	sst, sby, err := gosym.Explore(w, sfns, scfg, 4)
+	if err != nil {
+		fmt.Println("selftest engine (schedules):", err)
+		return 3
+	}
+	_ = sst
+	lost, okc := sby["Verif_Self_lost_update"], sby["Verif_Self_cas_ok"]
+	found := false
+	for _, v := range lost.Violations {
+		if v.Inputs["preemptions"] == 1 {
+			found = true
+		} else {
+			fmt.Println("selftest FAILED: lost update reported without a preemption")
+			return 1
+		}
+	}
+	if !found || len(okc.Violations) > 0 || okc.PathsDone < 2 {
+		fmt.Printf("selftest FAILED: schedule exploration (lost update found=%v, CAS loop violations=%d paths=%d)\n", found, len(okc.Violations), okc.PathsDone)
+		return 1
+	}
+	fmt.Printf("selftest ok: schedule exploration finds the lost update with one preemption (%d schedules) and none in the CAS loop (%d schedules)\n", lost.Paths, okc.Paths)
 	return 0
 }
